@@ -252,6 +252,103 @@ func genericRules(w *World, r *Report, prop string) {
 		}
 	}
 	r.OK(prop+"-G6", "census", 0, fmt.Sprintf("%d per-iteration containers inspected", nG6))
+	// ---- G7 lock pairing
+	r.Rule(prop+"-G7", "locks are paired", "in the same functions: a mutex / key lock taken on every path to a return is released before it (directly or by a deferred unlock), and every unlock releases a lock that is held on every path reaching it", 0)
+	nLocks := 0
+	for _, root := range fns {
+		for _, fn := range familyOf(root).Funcs {
+			host := shortFn2(fn)
+			has := false
+			eachInstr(fn, func(in ssa.Instruction) {
+				if a, k := w.lockFactsGen(in); len(a)+len(k) > 0 {
+					has = true
+				}
+			})
+			if !has {
+				continue
+			}
+			deferred := map[string]bool{}
+			noteUnlock := func(c *ssa.CallCommon) {
+				s := callSym(c)
+				if s.name != "Unlock" && s.name != "RUnlock" {
+					return
+				}
+				rc := callRecv(c)
+				if rc == nil {
+					return
+				}
+				p := w.accessPath(rc)
+				if a := callArgs(c); len(a) == 1 {
+					p += "[" + w.accessPath(a[0]) + "]"
+				}
+				if s.name == "Unlock" {
+					deferred["W:"+p] = true
+				} else {
+					deferred["R:"+p] = true
+				}
+			}
+			eachInstr(fn, func(in ssa.Instruction) {
+				d, ok := in.(*ssa.Defer)
+				if !ok {
+					return
+				}
+				noteUnlock(d.Common())
+				if mc, isMC := d.Call.Value.(*ssa.MakeClosure); isMC {
+					if lit, isF := mc.Fn.(*ssa.Function); isF {
+						eachInstr(lit, func(x ssa.Instruction) {
+							if c, isC := x.(*ssa.Call); isC {
+								noteUnlock(c.Common())
+							}
+						})
+						// the literal sees the lock through its free variables: match by suffix below
+					}
+				}
+			})
+			defSuffix := func(f string) bool {
+				if deferred[f] {
+					return true
+				}
+				for d := range deferred {
+					// same mode, and the deferred path names the same field chain (free:x.mu vs param:x.mu)
+					if d[:2] == f[:2] && pathTail(d[2:]) == pathTail(f[2:]) {
+						return true
+					}
+				}
+				return false
+			}
+			in := mustFacts(fn, w.lockFactsGen)
+			k := 0
+			for _, b := range fn.Blocks {
+				if b != fn.Blocks[0] && len(b.Preds) == 0 {
+					continue // the synthetic recover block
+				}
+				cur := in[b].clone()
+				for _, ins := range b.Instrs {
+					a, kl := w.lockFactsGen(ins)
+					for _, x := range kl {
+						nLocks++
+						if !cur[x] {
+							k++
+							r.Fail(prop+"-G7", fmt.Sprintf("%s | unlock #%d of %s", host, k, x[2:]), ins.Pos(), "this unlock is reached on a path on which the lock is not held (its Lock was removed, moved or made conditional): the mutex is unlocked twice or a critical section lost its protection")
+						}
+						delete(cur, x)
+					}
+					for _, x := range a {
+						cur[x] = true
+					}
+					if _, isRet := ins.(*ssa.Return); isRet {
+						for f := range cur {
+							if !defSuffix(f) {
+								k++
+								r.Fail(prop+"-G7", fmt.Sprintf("%s | return #%d holding %s", host, k, f[2:]), ins.Pos(), "the function returns with this lock held and no deferred unlock: the next caller blocks forever (the task can neither be paused nor deleted, the stream stops)")
+							}
+						}
+					}
+				}
+			}
+		}
+	}
+	r.OK(prop+"-G7", "census", 0, fmt.Sprintf("%d unlock sites inspected", nLocks))
 	nTests, nOK4, nCalls := 0, 0, 0
 	for _, root := range fns {
 		fam := familyOf(root)
@@ -526,4 +623,11 @@ func extractOfTuple(t ssa.Value, idx int) ssa.Value {
 		}
 	}
 	return nil
+}
+
+func pathTail(p string) string {
+	if i := strings.Index(p, "."); i >= 0 {
+		return p[i:]
+	}
+	return p
 }
